@@ -202,8 +202,14 @@ type c27Scen struct {
 }
 
 func c27Body(sc c27Scen) func() {
-	scratch := os.Getenv("VERIF_SCRATCH")
+	base := os.Getenv("VERIF_SCRATCH")
 	return func() {
+		// a fresh run directory per execution (spawn claims a daemon-N.log file in it)
+		scratch, err := os.MkdirTemp(base, fmt.Sprintf("c27-%d-", os.Getpid()))
+		if err != nil {
+			panic(err)
+		}
+		defer os.RemoveAll(scratch)
 		logger.SetOutput(io.Discard)
 		env := &c27Env{entries: map[string]*c27Sock{}}
 		c27Install(env, scratch)
@@ -266,23 +272,33 @@ func c27Body(sc c27Scen) func() {
 	}
 }
 
-func c27Oracle(sc c27Scen) func(r *vsched.Result) (string, string) {
-	return func(r *vsched.Result) (string, string) {
+func c27Oracle(sc c27Scen) func(r *vsched.Result) [][2]string {
+	return func(r *vsched.Result) [][2]string {
+		var out [][2]string
+		seen := map[string]bool{}
+		add := func(k, m string) {
+			if !seen[k] {
+				seen[k] = true
+				out = append(out, [2]string{k, m + fmt.Sprintf("; log %v", r.Log)})
+			}
+		}
 		if r.Deadlock {
-			return "deadlock", fmt.Sprintf("blocked: %v; log %v", r.Blocked, r.Log)
+			add("deadlock", fmt.Sprintf("blocked: %v", r.Blocked))
 		}
 		if r.Panics > 0 {
-			return "panic", fmt.Sprint(r.Log)
+			add("panic", "a goroutine panicked")
 		}
 		still := map[string]string{}
 		for _, l := range r.Log {
 			switch {
 			case strings.HasPrefix(l, "FOREIGN-UNLINK"):
-				return "daemon-removed-a-socket-it-did-not-create", l
+				add("daemon-removed-a-socket-it-did-not-create", l)
 			case strings.Contains(l, "daemon-has-no-database"):
-				return "activated-on-daemon-without-database", l
+				add("activated-on-daemon-without-database", l)
 			case strings.Contains(l, "later-call failed"):
-				return "daemon-stopped-serving-a-connected-client", l
+				if !seen["activated-on-daemon-without-database"] {
+					add("daemon-stopped-serving-a-connected-client", l)
+				}
 			case strings.Contains(l, " still on "):
 				f := strings.Fields(l)
 				still[f[0]] = f[3]
@@ -295,10 +311,10 @@ func c27Oracle(sc c27Scen) func(r *vsched.Result) (string, string) {
 				ds[d] = true
 			}
 			if len(ds) > 1 {
-				return "two-daemons-serving-at-once", fmt.Sprintf("shells are connected to different daemons at the same time: %v", still)
+				add("two-daemons-serving-at-once", fmt.Sprintf("shells are connected to different daemons at the same time: %v", still))
 			}
 		}
-		return "", ""
+		return out
 	}
 }
 
@@ -314,7 +330,7 @@ func c27Scenarios() []vshard.Scenario {
 		{"first-leaves-while-second-activates-stale", "stale", 2, true},
 	} {
 		sc := sc
-		scs = append(scs, vshard.Scenario{Name: sc.name, Body: c27Body(sc), Oracle: c27Oracle(sc),
+		scs = append(scs, vshard.Scenario{Name: sc.name, Body: c27Body(sc), MultiOracle: c27Oracle(sc),
 			Class: func(r *vsched.Result) string {
 				var keep []string
 				for _, l := range r.Log {
